@@ -193,6 +193,15 @@ sys.stdout.flush()
 _state = {}
 
 
+def translators(ctx):
+    """Re-extract the statement order of thread_canary_free_zombies (incl. the PY_VERSION_HEX guard of the
+    bound_gilstate workaround vs. the running interpreter), thread_canary_register, thread_canary_make_zombie,
+    cffi_thread_shutdown, gil_ensure, gil_release into Generated/CanarySteps.lean (raises on a reshaped function)."""
+    sys.path.insert(0, os.path.join(common.VERIF, "translate"))
+    import c36_steps
+    return [c36_steps.translator]
+
+
 def _quiet(fn):
     so = os.dup(1)
     devnull = os.open(os.devnull, os.O_WRONLY)
